@@ -79,7 +79,9 @@ func parentMain(fl *evid.Flags, only string) int {
 		"error-then-dead, dead-once-then-alive, mixed) over the answer classes of the runtime mode, 0-2 IP reservation files per " +
 		"IP dir (content variants id / id\\neth0 / id\\r\\neth0 / padded) and a state file per gc dir with p=0.6, plus " +
 		"non-container files (IP-named sub-directories, non-IP names, empty files, empty first line, symlinks with outside " +
-		"targets); 2 of 3 populations (3 of 4 thorough) add a runtime outage (socket down, or every request dropped) starting at " +
+		"targets); about a third of the dead containers with a state file have a failing port cleanup (recording callback " +
+		"returning an error always or the first 1-4 calls; real wiring: truncated/garbage/empty port file or failing iptables); " +
+		"2 of 3 populations (3 of 4 thorough) add a runtime outage (socket down, or every request dropped) starting at " +
 		"a chosen position of the inspect sequence; 1 of 3 wire the real Galaxy.cleanIPtables over the strict iptables fake. " +
 		"Non-trivial = at least one container answered dead whose files were seen removed AND at least one never-dead container " +
 		"whose files were still there at the end; distinct = mode/outage kind/callback wiring/hash of the multiset of container scripts"
@@ -250,6 +252,9 @@ func parentMain(fl *evid.Flags, only string) int {
 		}
 		if run.Counter("files_of_never-dead_containers_still_present_at_end") == 0 {
 			run.Inconclusive("no file of a never-dead container observed")
+		}
+		if run.Counter("dead_containers_with_failing_portclean") == 0 {
+			run.Inconclusive("no dead container whose port cleanup failed was observed")
 		}
 		if run.Counter("liveness_obligations") == 0 {
 			run.Inconclusive("no liveness obligation arose")
